@@ -1392,7 +1392,6 @@ Theorem become_leader_drops_reads r r' :
 Proof.
   unfold become_leader. intros H. destruct (role_eqb (r_state r) Follower); [discriminate|].
   inv_bind H. apply reset_drops_reads in Hx. destruct Hx as [A B].
-  cif H; [discriminate|].
   match type of H with match ?g with _ => _ end = _ => destruct g end; [|discriminate].
   inv_bind H. destruct x0 as [r6 ok]. destruct ok; [|discriminate]. inversion H; subst.
   apply append_entry_lite in Hx. destruct Hx as (C0 & D & _). cbn in C0, D.
@@ -1621,7 +1620,6 @@ Proof.
   intros H. pose proof (become_leader_drops_reads _ _ H) as [A B].
   unfold become_leader in H. destruct (role_eqb (r_state r) Follower); [discriminate|].
   inv_bind H. apply reset_fields in Hx. destruct Hx as (_ & _ & Hl & _ & Hi & _ & _ & Hm & _).
-  cif H; [discriminate|].
   match type of H with match ?g with _ => _ end = _ => destruct g end; [|discriminate].
   inv_bind H. destruct x0 as [r6 ok]. destruct ok; [|discriminate]. inversion H; subst.
   apply append_entry_lite in Hx. destruct Hx as (_ & _ & Hm6 & Hi6 & Hc6). cbn in Hm6, Hi6, Hc6.
@@ -1684,7 +1682,7 @@ Qed.
 Lemma hup_fx r tl r' : hup r tl = Ok r' -> fx r r'.
 Proof.
   intros H. apply hup_spec in H.
-  destruct H as [[_ ->]|[(_ & _ & ->)|(_ & _ & Hc)]]; try apply fx_refl.
+  destruct H as [[_ ->]|[(_ & _ & ->)|[(_ & _ & _ & ->)|(_ & _ & _ & Hc)]]]; try apply fx_refl.
   unfold hup_campaign in Hc. destruct tl; [eapply campaign_real_fx; eassumption|].
   destruct (r_pre_vote r); [eapply campaign_pre_fx|eapply campaign_real_fx]; eassumption.
 Qed.
